@@ -427,12 +427,43 @@ func (e *c17Exec) compiledFor(op *C17Op) *compiled {
 	return p
 }
 
+// refFor compiles (once per run) the option-less reference program of a position differential.
+func (e *c17Exec) refFor(src string) *compiled {
+	k := "ref\x00" + src
+	if p, ok := e.progs[k]; ok {
+		return p
+	}
+	p := compile(ProgSpec{Src: src}, nil)
+	e.progs[k] = p
+	return p
+}
+
 func (e *c17Exec) runOp(in *inputs, oc *opCtx, ci, oi int, op *C17Op) string {
 	st := &e.v.Stats
 	st.Ops++
 	p := e.compiledFor(op)
 	where := fmt.Sprintf("client %d op %d [%s] %q opts %s", ci, oi, op.Tmpl, op.Src, describeEOpts(in, op.Opts))
 	if !p.ok() {
+		if p.panic == "" && op.Tmpl == "posdiff" {
+			// the same program with `$this` (or the literal) in that position
+			if ref := compile(ProgSpec{Src: op.Arg}, nil); ref.ok() {
+				e.violate("custom-function", "rejected-in-position", fmt.Sprintf("%s: Compile rejects the program (%v) although every option is valid and %q, the same program with $this / the literal in that position, compiles", where, p.err, op.Arg))
+				return "uncompiled"
+			}
+			// this library's grammar support does not cover the position at all
+			e.v.Stats.probe("posdiff-position-unsupported-by-the-grammar")
+			return "uncompiled"
+		}
+		if p.panic == "" && p.err != nil {
+			// every program of the generator registers its functions with good signatures under free names:
+			// Compile saying that such a name cannot be resolved is the library's doing, not the generator's
+			for _, o := range op.COpts {
+				if o.Kind == "fn" && !strings.HasPrefix(o.Fn, "badsig") && strings.Contains(op.Src, o.Name+"(") && strings.HasSuffix(p.err.Error(), "can't be resolved: "+o.Name) {
+					e.violate("custom-function", "registered-function-not-resolved", fmt.Sprintf("%s: the function %q is registered by this Compile's options, yet Compile fails with: %v", where, o.Name, p.err))
+					return "uncompiled"
+				}
+			}
+		}
 		if p.panic == "" {
 			e.v.Infra = fmt.Sprintf("%s: program does not compile: %v", where, p.err)
 		}
@@ -591,6 +622,34 @@ func (e *c17Exec) runOp(in *inputs, oc *opCtx, ci, oi int, op *C17Op) string {
 			}
 			if len(oc.obs) > 0 {
 				e.violate("custom-function", "invoked-despite-bad-argument", where+": the callback ran although its argument is not a single item")
+			}
+		}
+	case "posdiff": // the program with pf() / %v in a position == the program with $this / the literal there
+		if op.Name != "" && !isBound {
+			break
+		}
+		ref := e.refFor(op.Arg)
+		if !ref.ok() {
+			e.v.Infra = fmt.Sprintf("%s: reference program %q does not compile: %v", where, op.Arg, ref.err)
+			break
+		}
+		var rgot system.Collection
+		var rerr error
+		func() {
+			defer func() {
+				if pv := recover(); pv != nil {
+					rerr = fmt.Errorf("panic: %v", pv)
+				}
+			}()
+			rgot, rerr = ref.fp.Evaluate(resources)
+		}()
+		st.probe("position-differential-compared")
+		switch {
+		case (rerr == nil) != (gerr == nil):
+			e.violate("custom-function", "position-differs", fmt.Sprintf("%s: ends with error %v, but %q - the same program with $this / the literal in that position - ends with error %v", where, gerr, op.Arg, rerr))
+		case rerr == nil:
+			if ok, d := sameItems(got, []any(rgot)); !ok {
+				e.violate("custom-function", "position-differs", fmt.Sprintf("%s: result differs from that of %q, the same program with $this / the literal in that position: %s", where, op.Arg, d))
 			}
 		}
 	case "call0": // F.obs0(): sees the items of F, returns them
